@@ -32,6 +32,31 @@ def guards_of(node: ast.AST, stop: ast.AST) -> List[Tuple[ast.AST, bool]]:
     return out
 
 
+def known_conditions(node: ast.AST, stop: ast.AST) -> List[Tuple[ast.AST, bool]]:
+    """guards_of plus what earlier statements of the enclosing blocks established by leaving: after
+    `if T: return/raise/continue/break` (no else) T is false for every statement that follows in that block."""
+    out = list(guards_of(node, stop))
+    child = node
+    p = getattr(node, "_parent", None)
+    while p is not None:
+        for field in ("body", "orelse", "finalbody"):
+            blk = getattr(p, field, None)
+            if isinstance(blk, list) and any(child is s for s in blk):
+                for s in blk:
+                    if s is child:
+                        break
+                    if isinstance(s, ast.If) and s.body and isinstance(s.body[-1], (ast.Return, ast.Raise, ast.Continue, ast.Break)):
+                        if not s.orelse:
+                            out.append((s.test, False))
+                    elif isinstance(s, ast.If) and s.orelse and isinstance(s.orelse[-1], (ast.Return, ast.Raise, ast.Continue, ast.Break)):
+                        out.append((s.test, True))
+        if p is stop:
+            break
+        child = p
+        p = getattr(p, "_parent", None)
+    return out
+
+
 def atoms(test: ast.AST, polarity: bool = True) -> List[Tuple[ast.AST, bool]]:
     """Split a condition known to be `polarity` into atomic conditions known to hold.
 
